@@ -173,6 +173,17 @@ def gen_c16(rng, tier):
         for k in range(0, 4):
             cases.append(('ChangeRatioI', [k], [nz(n)]))
             cases.append(('ChangePercentI', [k], [nz(n)]))
+    # integers that no float64 can hold (beyond 2^53): helpers that copy, compare, negate or add values must keep every bit
+    def wide(n):
+        return [rng.choice([1, -1]) * (2 ** rng.choice([53, 54, 60]) + rng.randrange(1, 1000)) if rng.random() < 0.8 else rng.randrange(-5, 6) for _ in range(n)]
+    for name in ['Abs', 'Sign', 'KeepPositives', 'KeepNegatives', 'Pipe', 'Buffered', 'Since', 'IncrementBy', 'DecrementBy', 'MultiplyBy', 'Filter', 'Count']:
+        for n in (1, 3, 6):
+            cases.append((name, [rng.randrange(-3, 4), rng.randrange(-3, 4)], [wide(n)]))
+    for name in ['Skip', 'First', 'Last', 'Shift', 'Change', 'Head'] if 'Head' in PARAM_IN else ['Skip', 'First', 'Last', 'Shift', 'Change']:
+        for n in (2, 5):
+            cases.append((name, [rng.randrange(0, 3), rng.randrange(-5, 6)], [wide(n)]))
+    for name in ['Add', 'Subtract']:
+        cases.append((name, [], [wide(4), wide(5)]))
     # inputs that share one Duplicate upstream
     for n in lens3:
         cases.append(('OperateShared', [], [gen_vals(rng, n)]))
@@ -216,13 +227,37 @@ def gen_c16_float(rng, tier):
                 if name == 'Divide':
                     ins.append([rng.randrange(1, 64000) / 64.0 for _ in range(rng.randrange(0, L + 1))])
                 out.append((name, [k], ins))
+    special = [float('nan'), float('inf'), float('-inf'), -0.0, 0.0, 5e-324, -5e-324, 1.7976931348623157e308]
+    for name in EXACT_FLOAT:
+        for n in range(L + 1):
+            vals = [rng.choice(special) if rng.random() < 0.4 else rng.randrange(-64000, 64000) / 64.0 for _ in range(n)]
+            ps = [rng.choice([0, 1, 3, 7, 11, 25, 999]), rng.randrange(0, 2)] if name == 'CountF' else [0]
+            out.append((name, ps, [vals]))
     return out
+
+
+EXACT_FLOAT = ['CountF', 'KeepPositivesF', 'KeepNegativesF', 'AbsF', 'SignF']     # no rounding involved: compared exactly
 
 
 def py_helper_float(name, ps, ins):
     import math
     a = ins[0]
     k = ps[0] if ps else 0
+    if name == 'CountF':
+        cur = k / 10.0 * (-1 if len(ps) > 1 and ps[1] == 1 else 1)
+        out = []
+        for _ in a:
+            out.append(cur)
+            cur = cur + 1.0
+        return out
+    if name == 'KeepPositivesF':
+        return [x if x > 0 else 0.0 for x in a]
+    if name == 'KeepNegativesF':
+        return [x if x < 0 else 0.0 for x in a]
+    if name == 'AbsF':
+        return [(-x if x < 0 else (0.0 if x == 0 else x)) for x in a]
+    if name == 'SignF':
+        return [1.0 if x > 0 else (-1.0 if x < 0 else 0.0) for x in a]
     if name == 'ChangeRatio':
         return [(a[i + k] - a[i]) / a[i] for i in range(max(0, len(a) - k))]
     if name == 'ChangePercent':
@@ -283,6 +318,9 @@ def check_c16(res, tier, replay):
             if not bad_oracle and gs:
                 for x, y in zip(gs[0], exp):
                     okc, _ = vlib.close(x, vlib.f2h(y))
+                    if name in EXACT_FLOAT:
+                        xv = vlib.h2f(x)
+                        okc = (xv != xv and y != y) or xv == y
                     if not okc:
                         bad_oracle = True
             if bad_oracle:
@@ -442,6 +480,53 @@ def py_bst(ops):
     return out
 
 
+def gen_bstf_history(rng, n):
+    """Bst[float64] over values that differ by little: neighbouring doubles, tiny fractions, subnormals, 0.1+0.2 vs 0.3"""
+    import math
+    base = rng.choice([1.0, 0.3, 1e-10, 100.25, 5e-324, 1e300, -1.0])
+    pool_src = [base, math.nextafter(base, math.inf), math.nextafter(base, -math.inf), base * 3, 0.1 + 0.2, 0.3, 1e-10, 3e-10, 2e-10,
+                5e-324, 1e-323, 0.0, -base, 1.0, math.nextafter(1.0, 2.0), 1.0 + 1e-12, 1.0 - 1e-12, 2.5, -2.5]
+    ops, pool = [], []
+    for _ in range(n):
+        r = rng.random()
+        v = rng.choice(pool if (pool and rng.random() < 0.6) else pool_src)
+        if r < 0.4:
+            ops.append('ins:' + vlib.f2h(v)); pool.append(v)
+        elif r < 0.65:
+            ops.append('rem:' + vlib.f2h(v))
+            if v in pool:
+                pool.remove(v)
+        elif r < 0.8:
+            ops.append('has:' + vlib.f2h(v))
+        elif r < 0.9:
+            ops.append('min')
+        else:
+            ops.append('max')
+    return ops
+
+
+def py_bstf(ops):
+    ms, out = collections.Counter(), []
+    for op in ops:
+        f = op.split(':')
+        v = vlib.h2f(f[1]) if len(f) == 2 else None
+        if f[0] == 'ins':
+            ms[v] += 1
+            out.append('-')
+        elif f[0] == 'rem':
+            if ms[v] > 0:
+                ms[v] -= 1
+                out.append('t')
+            else:
+                out.append('f')
+        elif f[0] == 'has':
+            out.append('t' if ms[v] > 0 else 'f')
+        else:
+            live = [k for k, c in ms.items() if c > 0]
+            out.append(vlib.f2h((min if f[0] == 'min' else max)(live)) if live else vlib.f2h(0.0))
+    return out
+
+
 def shrink_ops(prefix, ops, fails):
     """drop operations while the failure persists"""
     ops = list(ops)
@@ -484,6 +569,9 @@ def check_c17(res, tier, replay):
                 cmd = 'BSTSHAPE' if tier == 'thorough' or i % 4 == 0 else 'BST'
                 ln = '%s %s %s' % (cmd, typ, ','.join(ops))
                 lines.append('g%d %s' % (i, ln)); meta['g%d' % i] = ln; i += 1
+        for _ in range(nhist * 2):
+            ln = 'BSTF %s' % ','.join(gen_bstf_history(rng, rng.randrange(1, hlen)))
+            lines.append('g%d %s' % (i, ln)); meta['g%d' % i] = ln; i += 1
     go = vlib.run_go(lines)
     model = vlib.run_model(lines)
     mism = oracle_fail = nobs = 0
@@ -498,6 +586,8 @@ def check_c17(res, tier, replay):
         obs = goline.split(' | ')[0].split(' ', 1)[1].split(',') if ' ' in goline.split(' | ')[0] else []
         if f[0] == 'RING':
             exp = py_ring(int(f[2]), f[3].split(','))
+        elif f[0] == 'BSTF':
+            exp = py_bstf(f[1].split(','))
         else:
             exp = py_bst(f[2].split(','))
         if len(obs) != len(exp):
@@ -510,6 +600,8 @@ def check_c17(res, tier, replay):
     for cid, ln in meta.items():
         g, m = go.get(cid, 'missing'), model.get(cid, 'missing')
         f = ln.split(' ')
+        if f[0] == 'BSTF':
+            f = ['BSTF', 'float64-fractions', f[1]]
         ops = (f[3] if f[0] == 'RING' else f[2]).split(',')
         for op in ops:
             opcount[f[0][:3] + ':' + op.split(':')[0]] += 1
@@ -519,12 +611,14 @@ def check_c17(res, tier, replay):
         if bad is not None:
             oracle_fail += 1
             # shrink against the real code
+            mk = lambda cand: (' '.join(f[:3] + [','.join(cand)]) if f[0] == 'RING' else
+                               ('BSTF ' + ','.join(cand)) if f[0] == 'BSTF' else ' '.join(f[:2] + [','.join(cand)]))
             def fails(cand):
-                l2 = ' '.join(f[:3] + [','.join(cand)]) if f[0] == 'RING' else ' '.join(f[:2] + [','.join(cand)])
+                l2 = mk(cand)
                 out = vlib.run_go(['s ' + l2], nproc=1).get('s', 'missing')
                 return oracle(l2, out) is not None
             small = shrink_ops(None, ops, fails) if len(ops) <= 400 else ops
-            l2 = ' '.join(f[:3] + [','.join(small)]) if f[0] == 'RING' else ' '.join(f[:2] + [','.join(small)])
+            l2 = mk(small)
             res.violation({'lines': [l2], 'shrunk_from': len(ops), 'first_difference': bad,
                            'go_output': vlib.run_go(['s ' + l2], nproc=1).get('s'),
                            'oracle': 'bounded FIFO / multiset specification', 'type': f[1]})
@@ -547,5 +641,5 @@ def check_c17(res, tier, replay):
         'trusted_base': vlib.TRUSTED + ['Bst model assumes a lawful linear order on the element type (NaN excluded)'],
     })
     res.assumptions = ['capacity >= 1 (NewRing(0) divides by zero, outside the property domain)',
-                       'float element types exercised on integer-valued floats and +-2^53 / +-2^24 bounds; NaN excluded']
+                       'float element types: integer-valued floats and +-2^53 / +-2^24 bounds through BST, fractions, neighbouring doubles and subnormals through BSTF (float64); NaN excluded']
     return res.finish()
